@@ -14,6 +14,7 @@
 #include <sys/mman.h>
 #include <sys/stat.h>
 #include <fcntl.h>
+#include <malloc.h>
 #include <csignal>
 #include <ctime>
 #include <fstream>
@@ -302,6 +303,7 @@ struct ViolationRec
     uint64_t r = 0, seed = 0;
     std::string cls, path, msg, universe;
     bool crash = false;
+    bool confirmed = false;
 };
 
 static std::string write_replay(const Args &a, const Workload &w, const Plan &p)
@@ -612,6 +614,7 @@ static int cmd_run(const Args &a)
         bool ok = (code == 1 && cls.rfind(a.prop + "/", 0) == 0) || code == 77 || code >= 100;
         if (ok && !(code == 1 && cls == v.cls) && !(v.crash && crash_class(a.prop, code) == v.cls))
             v.msg += " | fresh-process replay failed as " + (code == 1 ? cls : crash_class(a.prop, code));
+        v.confirmed = ok;
         if (!ok)
             harness.push_back("gate3: replay of " + v.path + " in a fresh process gave exit " + std::to_string(code) + " class '" + cls + "' instead of '" + v.cls + "'");
         else
@@ -648,7 +651,7 @@ static int cmd_run(const Args &a)
     for (auto &v : viols)
     {
         js << (first ? "" : ", ") << "{\"class\": \"" << v.cls << "\", \"replay\": \"" << v.path << "\", \"universe\": \"" << v.universe
-           << "\", \"seed\": " << v.seed << ", \"run\": " << v.r << ", \"msg\": \"" << json_escape(v.msg) << "\"}";
+           << "\", \"confirmed\": " << (v.confirmed ? "true" : "false") << ", \"seed\": " << v.seed << ", \"run\": " << v.r << ", \"msg\": \"" << json_escape(v.msg) << "\"}";
         first = false;
     }
     js << "],\n \"harness_errors\": [";
@@ -676,6 +679,11 @@ static int cmd_run(const Args &a)
 int main(int argc, char **argv)
 {
     using namespace sim;
+#if !defined(STSIM_ASAN) && !defined(STSIM_TSAN)
+    // fresh and freed heap memory is filled with a pattern: a read of stale or uninitialised memory by the
+    // system under test gives the same garbage in every process instead of whatever the heap happened to hold
+    mallopt(M_PERTURB, 0xA5);
+#endif
     setvbuf(stdout, nullptr, _IOLBF, 0);
     Args a;
     if (argc < 2) { fprintf(stderr, "usage: stsim list|run|replay ...\n"); return 2; }
